@@ -1,12 +1,16 @@
 """Property -> rule composition."""
-from .rules import kdefects
+from .rules import kdefects, numeric
+
+DECISION_C05 = ['numqi.entangle.ppt.is_ppt', 'numqi.entangle.ppt.is_generalized_ppt',
+                'numqi.entangle.ppt.get_generalized_ppt_boundary', 'numqi.entangle._misc.check_swap_witness',
+                'numqi.entangle._misc.check_reduction_witness', 'numqi.utils.is_positive_semi_definite']
+DECISION_C20 = ['numqi.matrix_space._numerical_range.detect_real_matrix_subspace_rank_one',
+                'numqi.matrix_space._hierarchy.has_rank_hierarchical_method',
+                'numqi.matrix_space._hierarchy.is_ABC_completely_entangled_subspace']
 
 
 def dev(proj, rep, tier):
-    kdefects.k1(proj, rep, None)
-    kdefects.k2(proj, rep, None)
-    kdefects.k3(proj, rep, None)
-    kdefects.n1(proj, rep, None)
+    numeric.t1(proj, rep, DECISION_C05 + DECISION_C20)
 
 
 PROPS = {'DEV': dev}
